@@ -27,6 +27,13 @@ func TestMain(m *testing.M) {
 	for k := range Env {
 		keep = append(keep, k)
 	}
+	// values that themselves contain placeholder syntax: used only by the
+	// totality sub-checks (the statement does not say whether such text is
+	// expanded again, but parsing must end)
+	for k, v := range HostileEnv {
+		os.Setenv(k, v)
+		keep = append(keep, k)
+	}
 	vt.Main(m, keep...)
 }
 
@@ -322,7 +329,7 @@ type bytesCase struct {
 
 var soup = []string{
 	"{", "}", "\"", "\\", "#", "import", "import ", "(s)", "(s) {", "\n", "\n", " ", "\t", "\r\n", ",", ", ",
-	"host", "example.com", ":80", "gzip", "root", "/", "a", "b", "{$VA}", "{$", "{%", "%}", "{$}", "{%VB%}", "}", "{",
+	"host", "example.com", ":80", "gzip", "root", "/", "a", "b", "{$VA}", "{$", "{%", "%}", "{$}", "{%VB%}", "}", "{", "{$VE}", "{%VF%}", "{$VH}", "{$VI}",
 	"Casketfile", "a.conf", "b.conf", "blk.conf", "inc/*.conf", "inc/*", "cyc1.conf", "selfi.conf", "snipcyc.conf", "brace.conf",
 	"open.conf", "quote.conf", "inc", "missing.conf", "*", "*.conf", "?.conf", "[a]*.conf", "s", "\\\"", "\"\"", "\xef\xbb\xbf", "\x00", "\xff",
 	"import s", "import Casketfile", "import a.conf", "import cyc1.conf", "import inc/*.conf",
@@ -449,7 +456,7 @@ var constants = []string{
 	"import Casketfile", "host\nimport Casketfile\n", "host {\n import Casketfile\n}\n", "import selfi.conf", "host {\nimport cyc1.conf\n}",
 	"(s) {\n import s\n}\nhost {\n import s\n}\n", "import snipcyc.conf\nhost {\n import s\n}",
 	"\"", "\"\\", "\\\"", "{", "}", "{ }", "host {", "host }", "host {\n}\n}", "host {\n dir {\n}", "a, ", "a,\n", ",", "import", "import \"\"", "import a b",
-	"\xef\xbb\xbf", "\xef\xbb\xbfhost", "host\r\n{\r\n}\r\n", "{$", "{%", "{$}", "{$VA", "host {\n root {$VA}\n}", "host \"\n\n\" {\n}", "#", "# only comment\n",
+	"\xef\xbb\xbf", "\xef\xbb\xbfhost", "host\r\n{\r\n}\r\n", "{$", "{%", "{$}", "{$VA", "host {\n root {$VA}\n}", "host {\n root {$VE}\n}", "host {\n root {%VF%}\n}", "{$VH}.test {\n root {$VI}\n}", "{$VE}", "host \"\n\n\" {\n}", "#", "# only comment\n",
 	"(s)", "(s) {", "(s) {\n}\n(s) {\n}\n", "import *", "import inc/*", "import inc", "import [a]*.conf", "import **", "host {\n dir { {\n } }\n}",
 	"host {\n dir a {\n  import a.conf\n }\n}", "import blk.conf\nimport blk.conf\n", "host {\n import brace.conf\n}", "host {\n import open.conf\n}", "host {\n import quote.conf\n}",
 }
